@@ -629,14 +629,18 @@ def liveSet (tbl : Opcode → Eff) (f : Func) : Option (List Val) :=
 def keeps (tbl : Opcode → Eff) (live : List Val) (i : Instr) : Bool :=
   tbl i.opcode ≠ .none || i.results.any (· ∈ live)
 
-/-- `passDeadCodeEliminationOpt` for a side-effect table `tbl` -/
-def dceWith (tbl : Opcode → Eff) (f : Func) : Func :=
+/-- which instructions stay; should the stack loop run out of fuel, all of them -/
+def keepFn (tbl : Opcode → Eff) (f : Func) : Instr → Bool :=
   match liveSet tbl f with
-  | none => f
-  | some live =>
-    { f with blocks := f.blocks.map (fun B =>
-        if B.invalid then B
-        else { B with instrs := (B.instrs.filter (keeps tbl live)).map (·.mapOperands (res f.alias)) }) }
+  | some live => keeps tbl live
+  | none => fun _ => true
+
+/-- `passDeadCodeEliminationOpt` for a side-effect table `tbl`: the instructions that stay have their operands
+resolved, the others are unlinked. -/
+def dceWith (tbl : Opcode → Eff) (f : Func) : Func :=
+  { f with blocks := f.blocks.map (fun B =>
+      if B.invalid then B
+      else { B with instrs := (B.instrs.filter (keepFn tbl f)).map (·.mapOperands (res f.alias)) }) }
 
 def dce (f : Func) : Func := dceWith sideEffect f
 
@@ -649,13 +653,10 @@ def gidsBlocks (tbl : Opcode → Eff) (g : Nat) : List Block → List (List Nat)
 
 /-- for each valid block: the surviving instructions of `dce f` with their group ids -/
 def dceWithGids (f : Func) : List (Block × List (Instr × Nat)) :=
-  match liveSet sideEffect f with
-  | none => []
-  | some live =>
-    let bs := f.validBlocks
-    (bs.zip (gidsBlocks sideEffect 0 bs)).map (fun (B, gs) =>
-      (B, ((B.instrs.zip gs).filter (fun p => keeps sideEffect live p.1)).map
-            (fun p => (p.1.mapOperands (res f.alias), p.2))))
+  let bs := f.validBlocks
+  (bs.zip (gidsBlocks sideEffect 0 bs)).map (fun (B, gs) =>
+    (B, ((B.instrs.zip gs).filter (fun p => keepFn sideEffect f p.1)).map
+          (fun p => (p.1.mapOperands (res f.alias), p.2))))
 
 /-! ### runPreBlockLayoutPasses -/
 
